@@ -234,11 +234,19 @@ type c16OutCase struct {
 	tool    string
 	ret     string // which value the handler returns
 	content bool   // the handler supplies its own Content
+	shared  bool   // the handler returns one and the same (empty) *CallToolResult on every call
 }
 
 func c16AddOutputTools(s *Server, plan map[string]*c16OutCase) {
 	pick := func(name string) *c16OutCase { return plan[name] }
+	sharedResults := map[string]*CallToolResult{}
 	content := func(c *c16OutCase) *CallToolResult {
+		if c.shared {
+			if sharedResults[c.tool] == nil {
+				sharedResults[c.tool] = &CallToolResult{}
+			}
+			return sharedResults[c.tool]
+		}
 		if c.content {
 			return &CallToolResult{Content: []Content{&TextContent{Text: "own"}}}
 		}
@@ -343,6 +351,7 @@ func c16OutCases() []*c16OutCase {
 			for _, c := range []bool{false, true} {
 				out = append(out, &c16OutCase{name: fmt.Sprintf("%s ret=%s content=%v", tool, r, c), tool: tool, ret: r, content: c})
 			}
+			out = append(out, &c16OutCase{name: fmt.Sprintf("%s ret=%s shared-result-object", tool, r), tool: tool, ret: r, shared: true})
 		}
 	}
 	add("out-struct", "", "t")
@@ -749,9 +758,20 @@ func c16Suite(t *testing.T, env *verifx.Env, res *verifx.Result, suffix string, 
 		if !mine {
 			continue
 		}
-		plan[oc.tool] = oc
 		want := c16ExpectedOutput(oc)
 		desc := func() string { return oc.name }
+		if oc.shared {
+			// an earlier call of the same tool, with another return value, got the same result object
+			for _, other := range c16OutCases() {
+				if other.tool == oc.tool && other.shared && other.ret != oc.ret && c16ExpectedOutput(other) != "ERR" {
+					plan[oc.tool] = other
+					cs.CallTool(ctx, &CallToolParams{Name: oc.tool, Arguments: json.RawMessage(`{}`)})
+					desc = func() string { return oc.name + " after a call that returned " + other.ret }
+					break
+				}
+			}
+		}
+		plan[oc.tool] = oc
 		resT, callErr := cs.CallTool(ctx, &CallToolParams{Name: oc.tool, Arguments: json.RawMessage(`{}`)})
 		switch {
 		case want == "ERR":
